@@ -81,8 +81,8 @@ func (env *Env) lookupLocal(name string) (Val, bool) {
 	}
 	// header phis of the enclosing loops take precedence
 	for li := fr.inLoop[env.blk]; li != nil; li = li.parent {
-		for _, cv := range cands {
-			if phi, ok := cv.(*ssa.Phi); ok && phi.Block() == li.header {
+		for _, cb := range cands {
+			if phi, ok := cb.val.(*ssa.Phi); ok && cb.isPhi && phi.Block() == li.header {
 				if v, ok := env.phis[phi]; ok {
 					return v, true
 				}
@@ -92,46 +92,32 @@ func (env *Env) lookupLocal(name string) (Val, bool) {
 			}
 		}
 	}
-	// otherwise the deepest dominating definition
-	var best ssa.Value
-	var bestBlk *ssa.BasicBlock
-	bestIdx := -1
-	for _, cv := range cands {
-		var blk *ssa.BasicBlock
-		idx := -1
-		switch x := cv.(type) {
-		case *ssa.Parameter, *ssa.FreeVar:
-			blk = fr.fn.Blocks[0]
-		case ssa.Instruction:
-			blk = x.Block()
-			for i, in := range blk.Instrs {
-				if in == x {
-					idx = i
-				}
-			}
-		default:
-			continue
-		}
-		if blk == env.blk {
-			if _, isPhi := cv.(*ssa.Phi); !isPhi && !env.atLatch && idx >= 0 {
+	// otherwise the deepest dominating binding
+	var best *nameBinding
+	for k := range cands {
+		cb := &cands[k]
+		if cb.blk == env.blk {
+			if !cb.isPhi && !env.atLatch && cb.idx >= 0 {
 				continue
 			}
-		} else if !blk.Dominates(env.blk) {
+		} else if !cb.blk.Dominates(env.blk) {
 			continue
 		}
-		if _, ok := fr.vals[cv]; !ok {
-			if _, isAlloc := cv.(*ssa.Alloc); !isAlloc {
+		if _, ok := fr.vals[cb.val]; !ok {
+			switch cb.val.(type) {
+			case *ssa.Const, *ssa.Function:
+			default:
 				continue
 			}
 		}
-		if best == nil || (bestBlk != blk && bestBlk.Dominates(blk)) || (bestBlk == blk && idx > bestIdx) {
-			best, bestBlk, bestIdx = cv, blk, idx
+		if best == nil || (best.blk != cb.blk && best.blk.Dominates(cb.blk)) || (best.blk == cb.blk && cb.idx > best.idx) {
+			best = cb
 		}
 	}
 	if best == nil {
 		return nil, false
 	}
-	v := fr.vals[best]
+	v := fr.get(best.val)
 	if cp, ok := v.(CellPtr); ok {
 		cv, ok := env.st.cells[cp.Key]
 		return cv, ok
